@@ -275,12 +275,23 @@ inductive Md
   | plain
   /-- bodies of `try/stop`: `defeat` (at address `a`) holds the handler address `v`, `try_fp` the frame pointer -/
   | stop (a v : Nat)
-  /-- the level of the you function: `try/stop` blocks rewrite `try_fp` and `defeat` -/
-  | you
+  /-- the level of the you function: `try/stop` blocks rewrite `try_fp` and `defeat`; between them, in programs
+  that have these words, `defeat` (at `w.1`) holds the address `w.2` of a `halt` -/
+  | you (w : Option (Nat × Nat))
+
+/-- the word `defeat` and its value, where the situation knows them -/
+def Md.word : Md → Option (Nat × Nat)
+  | .stop a v => some (a, v)
+  | .you w => w
+  | .plain => none
+
+def Md.isYou : Md → Bool
+  | .you _ => true
+  | _ => false
 
 /-- the lowest address at and above which a statement list leaves the memory alone -/
 def Md.kb : Md → (F w : Nat) → Nat
-  | .you, F, w => F + 2 * w
+  | .you _, F, w => F + 2 * w
   | _, F, _ => F
 
 theorem Md.kb_ge (md : Md) (F w : Nat) : F ≤ md.kb F w := by cases md <;> simp [Md.kb]
@@ -288,7 +299,13 @@ theorem Md.kb_ge (md : Md) (F w : Nat) : F ≤ md.kb F w := by cases md <;> simp
 /-- where defeat calls go through the word `defeat` (bodies of `try/stop`, defeat functions), that word lies
 above the frame and holds the handler address -/
 def DReg (p : Prog) (md : Md) (m : Mem) (F : Nat) : Prop :=
-  ∀ a v, md = .stop a v → F + p.w ≤ a ∧ a + p.w ≤ m.size ∧ a + p.w < 256 ^ p.w ∧ m.readLE a p.w = v ∧ v < 256 ^ p.w
+  ∀ a v, md.word = some (a, v) → F + p.w ≤ a ∧ a + p.w ≤ m.size ∧ a + p.w < 256 ^ p.w ∧ m.readLE a p.w = v ∧ v < 256 ^ p.w
+
+theorem DReg.word {md md' : Md} {m : Mem} {F : Nat} (h : DReg p md m F) (e : md'.word = md.word) : DReg p md' m F :=
+  fun a v e' => h a v (by rw [← e]; exact e')
+
+theorem DReg.none {md : Md} {m : Mem} {F : Nat} (e : md.word = none) : DReg p md m F :=
+  fun a v e' => by rw [e] at e'; cases e'
 
 theorem DReg.keep {md : Md} {m m' : Mem} {F a : Nat} (h : DReg p md m F) (k : Keep p.w m m' a) (ha : a ≤ F) :
     DReg p md m' F := by
@@ -331,8 +348,13 @@ theorem SInv.keep {Γ : Gam} {env : Env} {m m' : Mem} {F D o ra : Nat} (h : SInv
 
 /-- the same state seen from a situation that asks nothing of `try_fp` and `defeat` -/
 theorem SInv.toMd {md' : Md} {Γ : Gam} {env : Env} {m : Mem} {F D o ra : Nat} (h : SInv p md Γ env m F D o ra)
-    (hm : ∀ a v, md' ≠ .stop a v) : SInv p md' Γ env m F D o ra :=
-  ⟨h.fr, h.vars, h.ra, fun a v e => absurd e (hm a v)⟩
+    (hm : md'.word = none) : SInv p md' Γ env m F D o ra :=
+  ⟨h.fr, h.vars, h.ra, DReg.none hm⟩
+
+/-- … or from one that knows the same about the word `defeat` -/
+theorem SInv.reMd {md' : Md} {Γ : Gam} {env : Env} {m : Mem} {F D o ra : Nat} (h : SInv p md Γ env m F D o ra)
+    (e : md'.word = md.word) : SInv p md' Γ env m F D o ra :=
+  ⟨h.fr, h.vars, h.ra, h.dreg.word e⟩
 
 /-- `SInv` without the frame pointer (see `KeepD`) -/
 structure SInvD (p : Prog) (md : Md) (Γ : Gam) (env : Env) (m : Mem) (F D o ra : Nat) : Prop where
@@ -402,21 +424,24 @@ theorem Post.rebase {B ra : Nat} {lp : Jt} {Γ : Gam} {env' : Env} {F D o e : Na
   | brk => exact ⟨h.1, h.2.1, k.trans' h.2.2⟩
   | cnt => exact ⟨h.1, h.2.1, k.trans' h.2.2⟩
 
-/-- what holds of a list that leaves `try_fp` and `defeat` alone holds at the level of the you function -/
-theorem Post.toYou {B ra : Nat} {lp : Jt} {Γ : Gam} {env' : Env} {F D o e : Nat} {m : Mem} {res : Res} {st : St}
-    (h : Post p B ra lp .plain Γ env' F D o e m res st) : Post p B ra lp .you Γ env' F D o e m res st := by
-  have hm : ∀ a v, Md.you ≠ .stop a v := by intro a v h; cases h
-  have hk : ∀ {m m' : Mem}, Keep p.w m m' (Md.plain.kb F p.w) → Keep p.w m m' (Md.you.kb F p.w) :=
-    fun k => k.mono (by simp [Md.kb])
+/-- what holds of a list that leaves `try_fp` and `defeat` alone holds at the level of the you function (the word
+`defeat` is what it was at the start) -/
+theorem Post.toYou {B ra : Nat} {lp : Jt} {md1 : Md} {w : Option (Nat × Nat)} {Γ : Gam} {env' : Env} {F D o e : Nat} {m : Mem} {res : Res} {st : St}
+    (hkb : md1.kb F p.w = F) (hd : DReg p (.you w) m F) (hres : res ≠ .defeat)
+    (h : Post p B ra lp md1 Γ env' F D o e m res st) : Post p B ra lp (.you w) Γ env' F D o e m res st := by
+  have hk : ∀ {m m' : Mem}, Keep p.w m m' (md1.kb F p.w) → Keep p.w m m' ((Md.you w).kb F p.w) :=
+    fun k => k.mono (by rw [hkb]; simp [Md.kb])
+  have hi : ∀ {m' : Mem}, SInv p md1 Γ env' m' F D o ra → Keep p.w m m' (md1.kb F p.w) → SInv p (.you w) Γ env' m' F D o ra :=
+    fun h k => ⟨h.fr, h.vars, h.ra, hd.keep k (by rw [hkb]; exact Nat.le_refl _)⟩
   cases res with
-  | norm => exact ⟨h.1, h.2.1.toMd hm, hk h.2.2⟩
+  | norm => exact ⟨h.1, hi h.2.1 h.2.2, hk h.2.2⟩
   | returned => exact ⟨h.1, hk h.2⟩
   | retv v => exact ⟨h.1, hk h.2.1, h.2.2⟩
   | div0 => exact h
   | ovf => exact h
-  | defeat => obtain ⟨a, v, h1, _⟩ := h; cases h1
-  | brk => exact ⟨h.1, h.2.1.toMd hm, hk h.2.2⟩
-  | cnt => exact ⟨h.1, h.2.1.toMd hm, hk h.2.2⟩
+  | defeat => exact absurd rfl hres
+  | brk => exact ⟨h.1, hi h.2.1 h.2.2, hk h.2.2⟩
+  | cnt => exact ⟨h.1, hi h.2.1 h.2.2, hk h.2.2⟩
 
 /-- a step that respects the frame respects it in every situation -/
 theorem Keep.kb {m m' : Mem} {F : Nat} (k : Keep p.w m m' F) : Keep p.w m m' (md.kb F p.w) := k.mono (md.kb_ge _ _)
